@@ -33,7 +33,7 @@ def handleObj (tree : Obj) (impl : String) : String × String :=
     | none => (model, "fail:unusable-impl-answer")
     | some ibytes =>
       -- T1: the library's own parser
-      let t1 := icanon == wantS && inext == ">>,endobj"
+      let t1 := icanon == canonObj false (readBackLib tree) && inext == ">>,endobj"
       -- T2: the independent reader on the implementation's bytes
       let t2 := match Spec.Syntax.read (ibytes ++ trailer) with
         | some (v, rest) => canonObj false v == wantS && rest == trailer
@@ -50,8 +50,7 @@ def handleObj (tree : Obj) (impl : String) : String × String :=
         let wantTree := readBack sorted
         let c1 : List String :=
           (if hasBadName NameAscii tree then ["nonascii"] else []) ++
-          (if hasRefLike wantTree then ["reflike"] else []) ++
-          (if hasBigReal tree then ["bigreal"] else [])
+          (if hasRefLike wantTree then ["reflike"] else [])
         -- no defect class is left on the independent-reader side: a T2 failure is never explained
         let c2 : List String := []
         let explained := (t1 || !c1.isEmpty) && (t2 || !c2.isEmpty) && model == impl
